@@ -241,6 +241,17 @@ pub fn test_case(c: &ReproCase, stats: &mut Stats) -> Result<(), String>
                 return Err(format!("contradiction names {:?}, the targets that differ from the record are {:?}", got, differing));
             }
         }
+        // what the user is shown names exactly these targets too, one per line
+        let text = b2.error_text.clone().unwrap_or_default();
+        let shown: BTreeSet<&str> = text.lines().map(|l| l.trim()).collect();
+        for t in rule.targets.iter()
+        {
+            if shown.contains(t.as_str()) != differing.contains(t)
+            {
+                return Err(format!("the contradiction message shown to the user {} target {}; the targets that differ from the record are {:?}. Message: {:?}",
+                    if differing.contains(t) { "does not name" } else { "names" }, t, differing, text));
+            }
+        }
         // the earlier record is kept unchanged
         let hist_after = read_history(&w, &rule)?;
         if hist_after != hist_before
